@@ -140,7 +140,7 @@ def rule_builtins(ck, F, X, rule="R1", want=BUILTINS):
                         hnb = Hh.norm_body(hb)
                         body += " " + " ".join((Hh.callee_path(z) or "") for z in Hh.exprs(hnb["value"]) if z.get("k") in ("Call", "MethodCall"))
                         body += " " + " ".join((z["path"].get("path") or "") for z in Hh.exprs(hnb["value"]) if z.get("k") == "Struct")
-            if "to_pascal_case" in body and "OtherRustType" in body:
+            if ("to_pascal_case" in body or "as_type_name" in body) and "OtherRustType" in body:
                 ck.ok(rule, "fallthrough", site, "non-builtin names become Other{pascal(local name), module of the prefix}")
             else:
                 ck.violation(rule, "fallthrough", site, f"the fall-through arm does not build Other{{to_pascal_case(..), module}}: {body[:120]}")
@@ -437,7 +437,7 @@ def rule_naming(ck, F, X):
         if og.nf_str(fields.get("is_any", ("lit", False))) == "True":
             continue
         ch, root = og.sanitiser_chain(CE.expand(fields["rust_name"]))
-        if ch == ["rename_keywords", "to_snake_case"]:
+        if ch and ch[0] == "rename_keywords" and "to_snake_case" in ch:
             ck.ok("R6", "field-name", site, "Field.rust_name = rename_keywords(to_snake_case(xml name))", fn="Field::try_from_node")
         else:
             ck.violation("R6", "field-name", site, f"Field.rust_name is built with {ch}, not rename_keywords∘to_snake_case", fn="Field::try_from_node")
